@@ -12,6 +12,8 @@ void push_bytes_stub(JanetBuffer *b, const uint8_t *bytes, int32_t len) {
   __CPROVER_assert(len >= 0 && g_n + len <= 16, "ghost capacity");
   for (int32_t i = 0; i < len; i++) g_out[g_n++] = bytes[i];
 }
+/* the 8-byte token buffer of the harness never has to grow: growth (realloc) is the business of the push_buf unit */
+void *realloc_stub(void *q, size_t n) { __CPROVER_assert(0, "C11 harness: push_buf stays within the preallocated capacity"); __CPROVER_assume(0); return 0; }
 void h_escape_roundtrip(void) {
   uint8_t c = nd_u8();
   JanetBuffer b; g_n = 0;
